@@ -1,6 +1,6 @@
 """Data-flow programs for C05: fork/join graphs whose tasks publish a small set of variables
-(task-level publish / publish-on-error, transition-level branch and global publish; scalar and
-one-level nested values; YAQL and Jinja renderings) and whose every action echoes the value of
+(task-level publish / publish-on-error, transition-level branch and global publish; scalar,
+one-level and two-level nested values; YAQL and Jinja renderings) and whose every action echoes the value of
 every variable it can see.  A published value names its publisher: "p:<task>:<how>" - so the
 projection can say who wrote what a task sees."""
 import json
@@ -127,11 +127,19 @@ def gen_canon(v):
     return json.dumps(v, sort_keys=True)
 
 
-def _value(rnd, t, how, nested_p, keyset=None):
+def _value(rnd, t, how, nested_p, keyset=None, deep=False):
     """(yaml form, python value)"""
     text = 'p:%s:%s' % (t, how)
     if rnd.random() < nested_p:
         ks = keyset or rnd.choice([['k'], ['m'], ['k', 'm'], ['k', 'm']])
+        if deep:
+            # two levels of nesting: x = {k: {d: <text>}, ...} (leaf paths of length 3)
+            val = {k: {'d': text} for k in ks}
+            if rnd.random() < 0.35:
+                y = '<% dict(' + ', '.join("%s => dict(d => '%s')" % (k, text) for k in ks) + ') %>'
+            else:
+                y = {k: {'d': _lit(rnd, text)} for k in ks}
+            return {'yaml': y, 'value': val}
         val = {k: text for k in ks}
         r = rnd.random()
         if r < 0.35:
@@ -142,7 +150,7 @@ def _value(rnd, t, how, nested_p, keyset=None):
     return {'yaml': _lit(rnd, text), 'value': text}
 
 
-def gen_dataflow(rnd, n=None, nested_p=0.0, p_err=0.2, p_tpub=0.25, p_global=0.15, p_pub=0.55, homogeneous=False):
+def gen_dataflow(rnd, n=None, nested_p=0.0, p_err=0.2, p_tpub=0.25, p_global=0.15, p_pub=0.55, homogeneous=False, deep=False):
     base = gen.gen_direct(rnd, n=n or rnd.randint(3, 6), partial_joins=False, p_join=1.0, p_cmd=0.0, allow_cmd=False, p_err=p_err,
                           p_guard=0.2, p_comp=0.25)
     P = DFProgram()
@@ -165,7 +173,7 @@ def gen_dataflow(rnd, n=None, nested_p=0.0, p_err=0.2, p_tpub=0.25, p_global=0.1
 
         def val(how):
             if homogeneous:
-                return _value(rnd, t, how, 1.0 if shape_nested else 0.0, keyset)
+                return _value(rnd, t, how, 1.0 if shape_nested else 0.0, keyset, deep=deep)
             return _value(rnd, t, how, np_)
 
         free = list(P.vars)
@@ -189,3 +197,35 @@ def gen_dataflow(rnd, n=None, nested_p=0.0, p_err=0.2, p_tpub=0.25, p_global=0.1
                     tp['global'] = {g: _value(rnd, t, 'g' + key, 0.0) for g in P.gvars}
                 d['tpub_' + key] = tp
     return P
+
+
+def catalogue():
+    """Fixed data-flow shapes: a variable published upstream of a fork, re-published inside ONE branch, merged at a
+    join (and in the workflow output) - for every value kind (scalar, one-level, two-level nested) and for either
+    branch being the re-publisher.  Together with the controlled id order of the world (ids = asc / desc) both
+    fold orders of the version merge are exercised deterministically."""
+    import random as _r
+    out = []
+    for kind in ('scalar', 'nested', 'deep'):
+        for who in ('a', 'b'):
+            for tail in (False, True):
+                P = DFProgram()
+                P.order = ['r', 'a', 'b'] + (['a2'] if tail else []) + ['j']
+                P.tasks = {'r': {'kind': 'action', 'succ': [{'to': 'a'}, {'to': 'b'}], 'err': [], 'comp': []},
+                           'a': {'kind': 'action', 'succ': [{'to': 'a2' if tail else 'j'}], 'err': [], 'comp': []},
+                           'b': {'kind': 'action', 'succ': [{'to': 'j'}], 'err': [], 'comp': []},
+                           'j': {'kind': 'action', 'join': -1, 'succ': [], 'err': [], 'comp': []}}
+                if tail:
+                    P.tasks['a2'] = {'kind': 'action', 'succ': [{'to': 'j'}], 'err': [], 'comp': []}
+                P.oracle = {t: ['ok'] for t in P.order}
+                P.flags = {'dataflow': True}
+                rnd = _r.Random(1)
+
+                def val(t):
+                    if kind == 'scalar':
+                        return _value(rnd, t, 'ok', 0.0)
+                    return _value(rnd, t, 'ok', 1.0, ['k', 'm'], deep=(kind == 'deep'))
+                P.tasks['r']['publish'] = {'x0': val('r'), 'x1': val('r')}
+                P.tasks[who]['publish'] = {'x0': val(who)}
+                out.append(('df_%s_%s%s' % (kind, who, '_tail' if tail else ''), P))
+    return out
